@@ -722,7 +722,11 @@ typedef struct cf_model {
 
 static double complex cf_crand(vt_rng_t *rng, double scale)
 {
-    return scale * ((2.0 * vt_unit(rng) - 1.0) + I * (2.0 * vt_unit(rng) - 1.0));
+    /* two statements: the order of the draws must not depend on the compiler */
+    double re = 2.0 * vt_unit(rng) - 1.0;
+    double im = 2.0 * vt_unit(rng) - 1.0;
+
+    return scale * (re + I * im);
 }
 
 static void cf_model_init(cf_model_t *mp, vt_rng_t *rng, int ports, int nf,
